@@ -6,12 +6,16 @@ from lxml import etree
 
 from vlib import codegen as G
 from vlib import infoset as I
+from vlib import multixsd as M
 from vlib import schemas as S
 from vlib.core import Collector, Failure, exc_sig, hyp_campaign
 
 ID = "C02"
 LEVEL = "exploration"
-RULE = ("Hypothesis draws a SchemaSpec (target namespace, element/attribute form defaults and per-declaration forms, named and "
+RULE = ("Two families. (multi-schema) 2-5 schemas importing each other, type names recurring across namespaces and global elements "
+        "named like types, 1-2 valid Basket documents; generation under two configurations must succeed (or be declined as a circular "
+        "import by a non-cluster style), both must parse the documents strictly and reproduce their canonical infoset, schema-valid. "
+        "(single schema) Hypothesis draws a SchemaSpec (target namespace, element/attribute form defaults and per-declaration forms, named and "
         "anonymous complex types, sequence/choice/all particles with occurrence ranges and nesting, simple types by "
         "restriction/list/union/enumeration, attributes with use/default/fixed, xs:any / xs:anyAttribute, extension with "
         "xsi:type substitution, abstract bases, nillable, mixed, simple content, recursion), 1-3 instance documents valid by "
@@ -79,6 +83,77 @@ def cases(draw):
     return {"spec": spec, "docs": docs, "shape": shape, "cfg_a": cfg_a, "cfg_b": cfg_b}
 
 
+@st.composite
+def multi_cases(draw):
+    """A set of schemas importing each other (type names recurring across namespaces, global elements named like types)."""
+    spec = draw(M.multi_specs())
+    docs = [M.instance(draw, spec) for _ in range(draw(st.integers(1, 2)))]
+    shape = {"compound_fields.enabled": draw(st.booleans()), "wrapper_fields": False}
+    return {"family": "multi", "spec": spec, "docs": docs, "shape": shape, "cfg_a": draw(output_only()), "cfg_b": draw(output_only())}
+
+
+def execute_multi(case, col):
+    import os
+    import tempfile
+    spec = case["spec"]
+    files = M.render(spec)
+    with tempfile.TemporaryDirectory() as d:
+        for n, t in files.items():
+            with open(os.path.join(d, n), "w", encoding="utf-8") as fh:
+                fh.write(t)
+        try:
+            schema = etree.XMLSchema(etree.parse(os.path.join(d, "main.xsd")))
+        except Exception:
+            col.reject()
+            return []
+    roots = [etree.fromstring(x.encode()) for x in case["docs"]]
+    if not all(schema.validate(r) for r in roots):
+        col.reject()
+        return []
+    names = [t for leaf in spec["leaves"] for t in leaf["types"]]
+    col.case((spec, case["docs"], case["shape"], case["cfg_a"], case["cfg_b"]), len(set(names)) < len(names) or any(leaf["elements"] for leaf in spec["leaves"]),
+             labels=["family:multi-schema", f"schemas:{len(files)}", f"style:{case['cfg_a']['structure_style']}"] +
+                    (["type-name-in-several-namespaces"] if len(set(names)) < len(names) else []),
+             sample={"files": {n: t[:1200] for n, t in files.items()}, "documents": [x[:1000] for x in case["docs"]], "config": {**case["shape"], **case["cfg_a"]}})
+    shown = "\n".join(f"--- {n}\n{t}" for n, t in files.items())
+    qname = S.qn(spec["main_ns"], "Basket")
+    outs = {}
+    for which in ("cfg_a", "cfg_b"):
+        opts = {**case["shape"], **case[which]}
+        with G.Workspace() as ws:
+            try:
+                pkg = ws.generate(files, opts, package=ws.unique_package("c02m") + ".gen")
+                ctx = XmlContext()
+                rootcls = None
+                for cls in ws.classes(pkg):
+                    if "." not in cls.__qualname__ and ctx.build(cls).qname == qname:
+                        rootcls = cls
+            except Exception as e:
+                if type(e).__name__ == "CodegenError" and ("Circular Dependencies" in str(e) or "strongly connected" in str(e)) and opts["structure_style"] != "clusters":
+                    col.label("generator-declined:circular-imports")
+                    continue
+                return [Failure(exc_sig(f"multi/generate-or-import/{which}", e), f"{type(e).__name__}: {e}\noptions: {opts}\n{shown}", case)]
+            if rootcls is None:
+                return [Failure("multi/no-root-class", f"no generated class is bound to {qname}\noptions: {opts}\n{shown}", case)]
+            outs[which] = []
+            for text in case["docs"]:
+                try:
+                    with warnings.catch_warnings():
+                        warnings.simplefilter("error")
+                        obj = XmlParser(context=ctx, config=ParserConfig(fail_on_unknown_properties=True, fail_on_unknown_attributes=True,
+                                                                          fail_on_converter_warnings=True)).from_string(text, rootcls)
+                    out = XmlSerializer(context=ctx, config=SerializerConfig(xml_declaration=False)).render(obj)
+                except Exception as e:
+                    return [Failure(exc_sig("multi/valid-document-rejected", e), f"{type(e).__name__}: {e}\ndocument: {text}\noptions: {opts}\n{shown}", case)]
+                a, b = I.canon(I.parse_strict(text.encode()), strip_ws=True), I.canon(I.parse_strict(out.encode()), strip_ws=True)
+                if a != b:
+                    return [Failure("multi/content-differs", f"{I.diff(a, b)}\ninput:  {text}\noutput: {out}\noptions: {opts}\n{shown}", case)]
+                if not schema.validate(etree.fromstring(out.encode())):
+                    return [Failure("multi/output-not-schema-valid", f"{schema.error_log.last_error}\noutput: {out}\noptions: {opts}\n{shown}", case)]
+                outs[which].append(b)
+    return []
+
+
 def order_preserving(spec, compound):
     """The fragment of the statement: every repeating group is a choice of single elements (compound fields on) or there is
     no repeating group at all; no xs:all (any order is valid there), no mixed content."""
@@ -138,6 +213,8 @@ _selftested = False
 
 def execute(case, col):
     global _selftested
+    if case.get("family") == "multi":
+        return execute_multi(case, col)
     if not _selftested:
         if not G.fidelity_selftest():
             raise RuntimeError("stand-in fidelity self-test failed")
@@ -240,11 +317,12 @@ REJECTS_OK = False
 
 def plan(tier, seed):
     n, nsh = {"quick": (1600, 16), "thorough": (48000, 96)}[tier]
-    return [{"n": n // nsh, "seed": seed * 1000 + i} for i in range(nsh)]
+    m, msh = {"quick": (400, 4), "thorough": (12000, 24)}[tier]
+    return [{"n": n // nsh, "seed": seed * 1000 + i} for i in range(nsh)] + [{"multi": True, "n": m // msh, "seed": seed * 1000 + 500 + i} for i in range(msh)]
 
 
 def run_shard(shard, col):
-    hyp_campaign(cases(), execute, shard["n"], shard["seed"], col, shrink_budget_s=40, max_shrinks=4)
+    hyp_campaign(multi_cases() if shard.get("multi") else cases(), execute, shard["n"], shard["seed"], col, shrink_budget_s=40, max_shrinks=4)
 
 
 def replay_case(case):
